@@ -14,7 +14,9 @@ RULE = ('planets 0.01-20 M_J, 0.1-3 R_J; 1-200 layers (quota for 1, 2, 3); press
         'temperature profiles isothermal / 2-point / Guillot / arbitrary positive array; mean molecular weight constant '
         'or varying with height (TwoLayerGas); pressure grids: SimplePressureProfile, ArrayPressureProfile (given or '
         'reversed, log-regular / jittered / wild), FilePressureProfile (text file in Pa, bar, mbar); plus calculate_scale_properties on arbitrary strictly decreasing levels '
-        'with random T and mu. distinct non-trivial = distinct (stream, pressure class, temperature class, layers, '
+        'with random T and mu; re-use stream: one SimplePressureProfile / one built model whose bounds, planet mass '
+        'and radius, temperatures and abundances are changed through the public setters / model[name] and which is '
+        're-initialised, judged against the new values and a freshly built object. distinct non-trivial = distinct (stream, pressure class, temperature class, layers, '
         'mu class) with non-constant T or mu or more than one layer')
 ASSUMPTIONS = [
     'np.linspace(a, b, n+1) = i*((b-a)/n) + a with the last entry set to b; np.logspace = 10**linspace; x**2 = x*x',
@@ -364,6 +366,12 @@ def eval_model(ctx, c):
     except Exception as e:
         ctx.violation('raises:build', 'building the forward model raised %r' % (e,), small)
         return
+    judge_model(ctx, m, c, small, 'model')
+
+
+def judge_model(ctx, m, c, small, stream):
+    """every predicate and model comparison of one (freshly built or re-used) forward model against the values in `c`"""
+    k = constants()
     n = int(m.nLayers)
     P = np.asarray(m.pressureProfile, float)
     pl = np.asarray(m.pressure.pressure_profile_levels, float)
@@ -372,13 +380,16 @@ def eval_model(ctx, c):
     z = np.asarray(m.altitude_boundaries, float)
     M, R = float(m.planet.fullMass), float(m.planet.fullRadius)
     gm = k['G'] * M
+    if not (C.close(M, float(c['mass']) * k['MJUP'], 1e-12) and C.close(R, float(c['radius']) * k['RJUP'], 1e-12)):
+        ctx.violation('planet-mass-radius', 'planet.fullMass/fullRadius are not the requested mass/radius', small,
+                      dict(M=M, R=R))
     if not (np.all(np.isfinite(z)) and np.all(np.isfinite(T)) and np.all(T > 0) and z[-1] < 1e3 * R):
         ctx.malformed_outcome('unbound-or-nonpositive-T:' + str(c['tkind']))
         return
     dec = strictly_decreasing(pl)
-    ctx.case(key=('model', c['pkind'], c['tkind'], c['mukind'], n if n < 4 else int(math.log2(n))),
+    ctx.case(key=(stream, c['pkind'], c['tkind'], c['mukind'], n if n < 4 else int(math.log2(n))),
              sample=dict(n=n, pkind=c['pkind'], tkind=c['tkind'], mass=c['mass'], radius=c['radius'], z=z[:3]),
-             bucket='model:pressure:' + c['pkind'])
+             bucket=stream + ':pressure:' + c['pkind'])
     ctx.bucket('layers:%s' % (n if n < 4 else '4+'))
     ctx.bucket('T:' + c['tkind'])
     ctx.bucket('mu:' + c['mukind'])
@@ -427,7 +438,7 @@ def eval_model(ctx, c):
         if H.shape == (n,) and g.shape == (n,) and dz.shape == (n,):
             check_hydrostatic(ctx, z, H, g, dz, T, pl, mu, gm, R, k['KBOLTZ'], small, 'model')
     else:
-        ctx.bucket('model:levels-not-decreasing(not judged)')
+        ctx.bucket(stream + ':levels-not-decreasing(not judged)')
     dens = np.asarray(m.densityProfile, float)
     if dens.shape == (n,) and not C.close(dens, P / (k['KBOLTZ'] * T), 1e-12):
         ctx.violation('density-formula', 'densityProfile differs from P/(kT)', small)
@@ -500,10 +511,145 @@ def gen_array(rng, n, pmin, pmax):
     return out
 
 
+# ----------------------------------------------------------------------------- stream 4: re-used objects
+class PrefixCtx:
+    """the run context with every violation key prefixed (same counters, same driver)"""
+
+    def __init__(self, ctx, prefix):
+        object.__setattr__(self, '_ctx', ctx)
+        object.__setattr__(self, '_prefix', prefix)
+
+    def __getattr__(self, name):
+        return getattr(self._ctx, name)
+
+    def __setattr__(self, name, value):
+        setattr(self._ctx, name, value)
+
+    def violation(self, key, what, case, detail=None):
+        self._ctx.violation(self._prefix + key, what + ' [object re-used after a parameter change]', case, detail)
+
+
+FRESH_ATTRS = ['pressureProfile', 'temperatureProfile', 'densityProfile', 'altitudeProfile', 'gravity_profile',
+               'scaleheight_profile', 'deltaz', 'altitude_boundaries']
+
+
+def eval_reuse_pressure(ctx, c):
+    """one SimplePressureProfile: compute, move the bounds through the public setters, compute again"""
+    from taurex.data.profiles.pressure import SimplePressureProfile
+    n = int(c['n'])
+    small = dict(c, kind='reuse-pressure')
+    pp = SimplePressureProfile(n, float(c['pmin0']), float(c['pmax0']))
+    pp.compute_pressure_profile()
+    how = c.get('how', 'property')
+    if how == 'property':
+        pp.minAtmospherePressure = float(c['pmin'])
+        pp.maxAtmospherePressure = float(c['pmax'])
+    else:
+        fp = pp.fitting_parameters()
+        fp['atm_min_pressure'][3](float(c['pmin']))
+        fp['atm_max_pressure'][3](float(c['pmax']))
+    pp.compute_pressure_profile()
+    levels = np.asarray(pp.pressure_profile_levels, float)
+    layers = np.asarray(pp.profile, float)
+    ctx.case(key=('reuse-pressure', n if n < 4 else int(math.log2(n)), how), sample=dict(small, levels=levels[:3]),
+             bucket='reuse:pressure:' + how)
+    pctx = PrefixCtx(ctx, 'stale-state:')
+    check_levels(pctx, levels, layers, n, float(c['pmin']), float(c['pmax']), small, 'SimplePressureProfile')
+    fresh = SimplePressureProfile(n, float(c['pmin']), float(c['pmax']))
+    fresh.compute_pressure_profile()
+    if not (same_arrays(levels, fresh.pressure_profile_levels) and same_arrays(layers, fresh.profile)):
+        ctx.violation('stale-state:pressure-differs-from-fresh', 'a SimplePressureProfile whose bounds were changed '
+                      'through its setters differs from one constructed with the new bounds', small,
+                      dict(levels=levels, fresh_levels=fresh.pressure_profile_levels, layers=layers,
+                           fresh_layers=fresh.profile))
+    d = ctx.model().call('c11.levels', C.N(n), C.F(float(c['pmin'])), C.F(float(c['pmax'])))
+    ctx.check_close('re-used SimplePressureProfile levels vs Structure.logLevels', levels, d.list(), small, REL)
+    ctx.check_close('re-used SimplePressureProfile layers vs Structure.layerPressures', layers, d.list(), small, REL)
+
+
+def apply_changes(m, c0, c1):
+    """move model `m` (built from c0) to the parameters of c1 through `model[name] = value`; returns the names set"""
+    todo = [('planet_mass', c1['mass']), ('planet_radius', c1['radius']), ('He_H2', c1['ratio']), ('H2O', c1['h2o'])]
+    if c1['pkind'] == 'simple':
+        todo += [('atm_min_pressure', c1['pmin']), ('atm_max_pressure', c1['pmax'])]
+    if c1['tkind'] == 'isothermal':
+        todo += [('T', c1['T'][0])]
+    elif c1['tkind'] == 'npoint':
+        todo += [('T_surface', c1['T'][0]), ('T_top', c1['T'][1])]
+    elif c1['tkind'] == 'guillot':
+        todo += [('T_irr', c1['T'][0])]
+    if c1['mukind'] == 'varying':
+        todo += [('CO2_surface', c1['co2'][0]), ('CO2_top', c1['co2'][1]), ('CO2_P', c1['co2'][2])]
+    for name, value in todo:
+        m[name] = float(value)
+    return [t[0] for t in todo]
+
+
+def eval_reuse_model(ctx, c):
+    """one forward model: build with c['before'], set every parameter of c['after'] through model[...], re-initialise,
+    judge against the NEW values and against a freshly built model"""
+    c0, c1 = c['before'], c['after']
+    small = dict(kind='reuse-model', before=c0, after=c1)
+    try:
+        with np.errstate(all='ignore'):
+            m = build_model(c0)
+            names = apply_changes(m, c0, c1)
+            m.initialize_profiles()
+            fresh = build_model(c1)
+    except Exception as e:
+        ctx.violation('stale-state:raises', 'changing parameters of a built model and re-initialising raised %r' % (e,),
+                      small)
+        return
+    for nm in names:
+        ctx.bucket('reuse:set:' + nm)
+    judge_model(PrefixCtx(ctx, 'stale-state:'), m, c1, small, 'reuse')
+    z = np.asarray(fresh.altitude_boundaries, float)
+    if not (np.all(np.isfinite(z)) and z[-1] < 1e3 * float(fresh.planet.fullRadius)):
+        return
+    pairs = [(a, getattr(m, a), getattr(fresh, a)) for a in FRESH_ATTRS]
+    pairs.append(('pressure_profile_levels', m.pressure.pressure_profile_levels, fresh.pressure.pressure_profile_levels))
+    pairs.append(('muProfile', m.chemistry.muProfile, fresh.chemistry.muProfile))
+    for name, a, b in pairs:
+        a = np.asarray(a, float)
+        b = np.asarray(b, float)
+        ctx.disagreements_checked += 1
+        if a.shape != b.shape or not C.close(a.ravel(), b.ravel(), 1e-12, 0.0):
+            ctx.violation('stale-state:differs-from-fresh:' + name, 'model.%s after changing parameters through '
+                          'model[...] and re-initialising differs from a freshly built model' % name, small,
+                          dict(reused=a, fresh=b))
+
+
+def gen_reuse_model(rng, k):
+    c0 = gen_model_case(rng, k)
+    c1 = dict(c0)
+    c1['mass'], c1['radius'] = gen_planet(rng)
+    decades = 6.0
+    if c0['pkind'] == 'simple':
+        c1['pmin'], c1['pmax'], decades = gen_pressure_range(rng)
+    else:
+        decades = abs(math.log10(float(np.max(c0['array'])) / float(np.min(c0['array']))))
+    n = int(c0['n'])
+    if c0['tkind'] != 'array':
+        Tb = bounded_T(rng, 2, c1['mass'], c1['radius'], 2.0, decades + 1.0, 'random')
+        if c0['tkind'] == 'guillot':
+            Tb = np.minimum(Tb, 2500.0)
+        c1['T'] = Tb
+    c1['ratio'] = float(rng.uniform(0.05, 0.3))
+    c1['h2o'] = float(10 ** rng.uniform(-8, -1))
+    lo = math.log10(c1['pmin']) if c1['pkind'] == 'simple' else math.log10(float(np.min(c0['array'])))
+    hi = math.log10(c1['pmax']) if c1['pkind'] == 'simple' else math.log10(float(np.max(c0['array'])))
+    c1['co2'] = [float(10 ** rng.uniform(-6, -0.5)), float(10 ** rng.uniform(-9, -2)), float(10 ** rng.uniform(lo, hi))]
+    return dict(kind='reuse-model', before=c0, after=c1)
+
+
 # ----------------------------------------------------------------------------- entry points
 def eval_case(ctx, c):
     kind = c.get('kind')
-    if kind == 'simple-pressure':
+    if kind == 'reuse-pressure':
+        eval_reuse_pressure(ctx, c)
+    elif kind == 'reuse-model':
+        eval_reuse_model(ctx, c)
+    elif kind == 'simple-pressure':
         eval_simple_pressure(ctx, c)
     elif kind == 'array-pressure':
         eval_array_pressure(ctx, c)
@@ -547,6 +693,14 @@ def run(ctx):
         eval_direct(ctx, gen_direct(rng, k))
     for k in range(ctx.n(500, 8000)):
         eval_model(ctx, gen_model_case(rng, k))
+    for k in range(ctx.n(150, 2500)):
+        n = [1, 2, 3][k % 10] if k % 10 < 3 else int(rng.integers(1, 201))
+        pmin0, pmax0, _ = gen_pressure_range(rng)
+        pmin, pmax, _ = gen_pressure_range(rng)
+        eval_reuse_pressure(ctx, dict(n=n, pmin0=pmin0, pmax0=pmax0, pmin=pmin, pmax=pmax,
+                                      how='property' if k % 2 else 'fitparam'))
+    for k in range(ctx.n(150, 2500)):
+        eval_reuse_model(ctx, gen_reuse_model(rng, k))
     malformed(ctx)
 
 
